@@ -9,9 +9,10 @@
                             is how the trusted converter numbers the new values of the rewritten module)
    Both return None when a guard of the Python fails (no rewrite).
 
-   Modelling restriction (stated in the meta file): a value feeding the setup that is the result of an
-   scf.for / scf.if makes the dependency closure fail here, while the Python asks xDSL whether the
-   whole region op is side-effect free. *)
+   A value feeding the setup that is the result of an scf.for / scf.if makes the dependency closure fail:
+   get_scoped_setup_inputs treats ops with regions as immovable (/repo fix add6c27; before the fix the Python
+   asked xDSL whether the whole region op is side-effect free and moved/cloned it without following the values
+   its regions capture). *)
 From Snax Require Import Base.Prelude Model.AccIR Model.AccSem.
 
 (* ---- values defined / used by a statement ------------------------------------------------------ *)
@@ -268,8 +269,19 @@ Fixpoint set_nth {A} (i : nat) (x : A) (l : list A) : list A :=
   | y :: l', S i' => y :: set_nth i' x l'
   end.
 
-Definition has_direct_launch (b : block) : bool :=
-  existsb (fun s => match s with SLaunch _ _ _ _ => true | _ => false end) b.
+(* any(isinstance(inner_op, LaunchOp) for prev_op in previous_ops_of(op) for inner_op in prev_op.walk()):
+   a launch (of any accelerator) in front of the setup, directly in the block or nested in a region
+   (repaired guard, /repo fix 86c56b5; before the fix only direct launches were seen) *)
+Fixpoint stmt_any_launch (s : stmt) : bool :=
+  let blk := fix blk (b : list stmt) : bool :=
+    match b with [] => false | x :: b' => stmt_any_launch x || blk b' end in
+  match s with
+  | SLaunch _ _ _ _ => true
+  | SFor _ _ _ _ _ _ body _ => blk body
+  | SIf _ _ th _ el _ => blk th || blk el
+  | _ => false
+  end.
+Definition has_launch_before (b : block) : bool := existsb stmt_any_launch b.
 
 (* the rewrite of one scf.for whose body directly contains the setup [o]; returns (prologue, new loop) *)
 Definition loop_overlap_for (whole : block) (o : val) (nf : nat) (s : stmt) : option (list stmt * stmt) :=
@@ -285,7 +297,7 @@ Definition loop_overlap_for (whole : block) (o : val) (nf : nat) (s : stmt) : op
           match index_of s_in (map it_arg iters) 0%nat with
           | None => None
           | Some idx =>
-              if has_direct_launch (firstn k body) then None else
+              if has_launch_before (firstn k body) then None else
               match scoped_inputs body (map snd fs) with
               | None => None
               | Some inputs =>
